@@ -13,14 +13,15 @@ from concurrent.futures import ThreadPoolExecutor
 
 VERIF = os.path.dirname(os.path.dirname(os.path.abspath(__file__)))
 REPO = os.environ.get("VERIF_REPO", "/repo")
-BUILD = os.path.join(VERIF, ".build")
+BUILD = os.environ.get("VERIF_BUILD", os.path.join(VERIF, ".build"))
+HARNESS_DIR = os.environ.get("VERIF_HARNESS", os.path.join(VERIF, "harness"))
 COQ = os.path.join(VERIF, "coq")
 HX = os.path.join(BUILD, "target", "debug", "hx")
 HX_REL = os.path.join(BUILD, "target", "release", "hx")
 DRIVER = os.path.join(VERIF, "ocaml", "driver")
 SHIM = os.path.join(VERIF, "shim", "fsshim.so")
 NPROC = min(16, os.cpu_count() or 4)
-ENV = dict(os.environ, CARGO_NET_OFFLINE="true")
+ENV = dict(os.environ, CARGO_NET_OFFLINE="true", CARGO_TARGET_DIR=os.path.join(BUILD, "target"))
 
 
 class BuildError(Exception):
@@ -96,7 +97,7 @@ def build_shim():
 def build_harness(release=False):
     """Always goes through cargo, which rebuilds cassadilia from /repo's current working tree."""
     with Lock("cargo"):
-        hd = os.path.join(VERIF, "harness")
+        hd = HARNESS_DIR
         shutil.copy(os.path.join(REPO, "Cargo.lock"), os.path.join(hd, "Cargo.lock"))
         flag = "--release" if release else ""
         sh(f"cargo build --offline {flag} 2>&1", cwd=hd, timeout=1800)
